@@ -57,7 +57,9 @@ fn atom(s: &str) -> String {
 pub fn pexpr(e: &Arc<dyn PhysicalExpr>) -> String {
     let kids = || e.children().iter().map(|c| pexpr(c)).collect::<Vec<_>>().join(" ");
     if let Some(c) = e.downcast_ref::<Column>() {
-        format!("(col {} {})", atom(c.name()), c.index())
+        // by index only: the NAME inside a physical Column is not used for evaluation and the decoder
+        // re-derives it from the input schema (stale names left by the planner change harmlessly)
+        format!("(col {})", c.index())
     } else if let Some(l) = e.downcast_ref::<Literal>() {
         match export_scalar(l.value()) {
             Ok(s) => format!("(lit {} {s})", atom(&l.value().data_type().to_string())),
@@ -102,7 +104,19 @@ fn ppartitioning(p: &Partitioning) -> String {
     }
 }
 
+thread_local! {
+    /// when set, schemas are printed without their nullability flags
+    static MASK_NULLABLE: std::cell::Cell<bool> = const { std::cell::Cell::new(false) };
+}
+
 fn pschema(s: &Schema) -> String {
+    let mask = MASK_NULLABLE.with(|m| m.get());
+    if mask {
+        return format!(
+            "({})",
+            s.fields().iter().map(|f| format!("({} {})", atom(f.name()), atom(&f.data_type().to_string()))).collect::<Vec<_>>().join(" ")
+        );
+    }
     format!(
         "({})",
         s.fields()
@@ -212,10 +226,43 @@ fn pjoin_filter(f: Option<&datafusion::physical_plan::joins::utils::JoinFilter>)
     }
 }
 
-/// the whole plan: `(name attrs (fetch ..) (schema ..) (part ..) (order ..) (bounded/emission) child*)`
+/// `ProjectionExec` whose i-th expression is `col i` or `CAST(col i)`: what `UnionExec::try_new`
+/// (`coerce_schema`) wraps around an input whose field nullability differs from the union schema
+fn is_coercion_wrapper(p: &Arc<dyn ExecutionPlan>) -> bool {
+    match p.downcast_ref::<ProjectionExec>() {
+        None => false,
+        Some(x) => x.expr().iter().enumerate().all(|(i, pe)| {
+            let inner = match pe.expr.downcast_ref::<CastExpr>() {
+                Some(c) => Arc::clone(c.expr()),
+                None => Arc::clone(&pe.expr),
+            };
+            matches!(inner.downcast_ref::<Column>(), Some(c) if c.index() == i)
+        }),
+    }
+}
+
 pub fn pexport(p: &Arc<dyn ExecutionPlan>) -> String {
+    pexport_with(p, false)
+}
+
+/// the whole plan: `(name attrs (fetch ..) (schema ..) (part ..) (order ..) (bounded/emission) child*)`;
+/// `elide`: skip the coercion wrappers directly under a UnionExec
+pub fn pexport_with(p: &Arc<dyn ExecutionPlan>, elide: bool) -> String {
     let props = p.properties();
-    let kids = p.children().iter().map(|c| pexport(c)).collect::<Vec<_>>().join(" ");
+    let is_union = p.name() == "UnionExec";
+    let kids = p
+        .children()
+        .iter()
+        .map(|c| {
+            let mut c: Arc<dyn ExecutionPlan> = Arc::clone(c);
+            while elide && is_union && is_coercion_wrapper(&c) {
+                let inner = Arc::clone(c.children()[0]);
+                c = inner;
+            }
+            pexport_with(&c, elide)
+        })
+        .collect::<Vec<_>>()
+        .join(" ");
     format!(
         "({} {} (fetch {}) (schema {}) (part {}) (order {}) (props {}) {kids})",
         p.name(),
@@ -285,7 +332,14 @@ fn option_codecs(run: &mut Run, rng: &mut Rng) {
                     Some(g) => {
                         run.case("limit_codec", &req, &format!("{} {}", g.skip(), show_opt(g.fetch())), v >= (1 << 31));
                         let ok = g.skip() == v && g.fetch() == f;
-                        run.oracle(ok, &format!("limit-codec GlobalLimitExec skip={v} fetch={}", show_opt(f)), &format!("decoded skip={} fetch={}", g.skip(), show_opt(g.fetch())));
+                        let mut tags = vec![];
+                        if g.skip() != v {
+                            tags.push(if v >= (1usize << 32) { "skip-truncated-u32" } else { "skip-unexpected" });
+                        }
+                        if g.fetch() != f {
+                            tags.push(if matches!(f, Some(x) if x >= (1usize << 63)) { "fetch-dropped-i64" } else { "fetch-unexpected" });
+                        }
+                        run.oracle(ok, &format!("limit-codec {} GlobalLimitExec skip={v} fetch={}", tags.join("+"), show_opt(f)), &format!("decoded skip={} fetch={}", g.skip(), show_opt(g.fetch())));
                     }
                     None => run.oracle(false, &format!("limit-codec GlobalLimitExec skip={v} fetch={} wrong-node", show_opt(f)), back.name()),
                 },
@@ -318,7 +372,11 @@ fn option_codecs(run: &mut Run, rng: &mut Rng) {
                 Ok(Ok(back)) => {
                     let got = if kind == "local" { back.downcast_ref::<LocalLimitExec>().map(|l| l.fetch()) } else { back.fetch() };
                     run.case("fetch_codec", &req, &show_opt(got), v >= (1 << 31));
-                    run.oracle(got == orig, &format!("fetch-codec {kind} fetch={v}"), &format!("{} fetch {} decoded as {}", back.name(), show_opt(orig), show_opt(got)));
+                    let tag = match kind {
+                        "sort" | "spm" => if v >= (1usize << 63) { "fetch-dropped-i64" } else { "fetch-unexpected" },
+                        _ => if v >= (1usize << 32) { "fetch-truncated-u32" } else { "fetch-unexpected" },
+                    };
+                    run.oracle(got == orig, &format!("fetch-codec {tag} {kind} fetch={v}"), &format!("{} fetch {} decoded as {}", back.name(), show_opt(orig), show_opt(got)));
                 }
                 Ok(Err(e)) => {
                     run.count("codec_rejected");
@@ -400,6 +458,26 @@ fn configs() -> Vec<(&'static str, SessionConfig)> {
     ]
 }
 
+/// does the plan carry a skip / fetch that the `as u32` option codecs cannot represent?
+fn has_big_u32_option(p: &Arc<dyn ExecutionPlan>) -> bool {
+    let big = |n: usize| n >= (1usize << 32);
+    let here = if let Some(g) = p.downcast_ref::<GlobalLimitExec>() {
+        big(g.skip())
+    } else if let Some(l) = p.downcast_ref::<LocalLimitExec>() {
+        big(l.fetch())
+    } else if p.downcast_ref::<SortExec>().is_some()
+        || p.downcast_ref::<SortPreservingMergeExec>().is_some()
+        || p.downcast_ref::<HashJoinExec>().is_some()
+    {
+        false // int64 / uint64 encodings
+    } else {
+        // FilterExec, CoalescePartitionsExec, CoalesceBatchesExec, DataSourceExec (MemorySourceConfig /
+        // FileScanConfig limit): optional uint32
+        matches!(p.fetch(), Some(n) if big(n))
+    };
+    here || p.children().iter().any(|c| has_big_u32_option(c))
+}
+
 fn op_names(p: &Arc<dyn ExecutionPlan>, out: &mut Vec<String>) {
     out.push(p.name().to_string());
     for c in p.children() {
@@ -417,8 +495,10 @@ fn plans(run: &mut Run, rng: &mut Rng) {
             ds = DataSet::generate(rng);
         }
         let mut q = Gen::new(rng).statement();
+        let mut big_limit = false;
         // large LIMIT / OFFSET values: the option codecs narrow some of them
         if q.ordered && rng.chance(1, 6) {
+            big_limit = true;
             let big = *rng.pick(&["4294967296", "4294967297", "2147483648", "9223372036854775807", "4294967295"]);
             if !q.sql.contains(" LIMIT ") {
                 q.sql = format!("{} LIMIT {big}", q.sql);
@@ -478,21 +558,79 @@ fn plans(run: &mut Run, rng: &mut Rng) {
             // structure, field by field
             let sb = pexport(&plan);
             let sa = pexport(&after);
-            run.oracle(sb == sa, &format!("structure-differs {sig_base}"), &first_diff(&sb, &sa));
-            run.case("pjudge", &format!("({sb} {sa})"), "ok", names.len() >= 4);
-            // display text
             let tb = displayable(plan.as_ref()).indent(true).to_string();
             let ta = displayable(after.as_ref()).indent(true).to_string();
-            run.oracle(tb == ta, &format!("display-differs {sig_base}"), &format!("before:\\n{tb}\\nafter:\\n{ta}"));
-            // results
+            // UnionExec::try_new re-coerces its inputs on decode and wraps them in one more
+            // ProjectionExec (finding C36-2): recognised when the plans agree once those wrappers are elided
+            let masked = |p: &Arc<dyn ExecutionPlan>| {
+                MASK_NULLABLE.with(|m| m.set(true));
+                let r = pexport_with(p, true);
+                MASK_NULLABLE.with(|m| m.set(false));
+                r
+            };
+            let cause = if sb == sa {
+                ""
+            } else if has_big_u32_option(&plan) {
+                run.count("cause:option-truncated-u32");
+                "option-truncated-u32"
+            } else if names.iter().any(|n| n == "UnionExec") && masked(&plan) == masked(&after) {
+                run.count("cause:union-input-rewrapped");
+                "union-input-rewrapped"
+            } else {
+                "structure-differs"
+            };
+            let elided = if cause == "structure-differs" { first_diff(&masked(&plan), &masked(&after)) } else { String::new() };
+            run.oracle(sb == sa, &format!("{cause} {sig_base}"), &format!("{}\\nELIDED {elided}\\nbefore:\\n{tb}\\nafter:\\n{ta}", first_diff(&sb, &sa)));
+            // the Lean side re-decides the structural equality (the violation itself is the oracle above)
+            run.case("pjudge", &format!("({sb} {sa})"), if sb == sa { "ok" } else { "bad:differ" }, names.len() >= 4);
+            let mut fnames = vec![];
+            all_field_names(&plan, &mut fnames);
+            all_field_names(&after, &mut fnames);
+            fnames.sort_by(|a, b| b.len().cmp(&a.len()).then(a.cmp(b)));
+            fnames.dedup();
+            if tb != ta {
+                run.count("display_differs_raw");
+            }
+            // reported only when the field-walking export saw nothing (it covers what it does not walk)
+            let d_ok = sb != sa || strip_column_names(&tb, &fnames) == strip_column_names(&ta, &fnames);
+            run.oracle(d_ok, &format!("display-differs {sig_base}"), &format!("before:\\n{tb}\\nafter:\\n{ta}"));
+            // results (not for the huge LIMIT/OFFSET statements: TopK operators pre-allocate `fetch` slots
+            // and a fetch of 2^32 aborts the process with an allocation failure)
+            if big_limit {
+                run.count("not_executed_big_limit");
+                continue;
+            }
             let ob = rtm.block_on(rt::run_physical(&ctx, plan));
             let oa = rtm.block_on(rt::run_physical(&ctx2, after));
             match rt::same_outcome(&ob, &oa, q.ordered, SchemaLevel::Full) {
                 Ok(()) => run.oracle(true, "", ""),
-                Err((what, detail)) => run.oracle(false, &format!("result-differs:{what} {sig_base}"), &detail),
+                Err((what, detail)) => {
+                    let pre = if cause == "option-truncated-u32" { "option-truncated-u32 " } else { "" };
+                    run.oracle(false, &format!("{pre}result-differs:{what} {sig_base}"), &detail)
+                }
             }
         }
     }
+}
+
+fn all_field_names(p: &Arc<dyn ExecutionPlan>, out: &mut Vec<String>) {
+    for f in p.schema().fields() {
+        out.push(f.name().clone());
+    }
+    for c in p.children() {
+        all_field_names(c, out);
+    }
+}
+
+/// display text with the names of column references removed (`b@1` → `@1`)
+fn strip_column_names(text: &str, names: &[String]) -> String {
+    let mut t = text.to_string();
+    for n in names {
+        if !n.is_empty() {
+            t = t.replace(&format!("{n}@"), "@");
+        }
+    }
+    t
 }
 
 fn first_diff(a: &str, b: &str) -> String {
